@@ -15,9 +15,15 @@ _STATE = {"active": False, "log": None}
 
 # vars files: relative physical location -> id
 VARS_FILES = {"allowed/v_in.py": "in", "allowed/sub/v_sub.py": "sub", "allowed_evil/v_pfx.py": "pfx",
-              "outside/v_out.py": "out", "pipe/v_pipe.py": "pipe"}
+              "outside/v_out.py": "out", "pipe/v_pipe.py": "pipe", "pipe/sub/deep/v_deep.py": "deep",
+              "pipe/sub/deep/below/v_below.py": "below"}
 SYMLINKS = {"allowed/link_out.py": "../outside/v_out.py", "allowed/linkdir": "../outside",
-            "outside/link_in.py": "../allowed/v_in.py", "alias": "allowed"}
+            "outside/link_in.py": "../allowed/v_in.py", "alias": "allowed",
+            "pipe/sub/deep/link_up.py": "../../v_pipe.py", "pipe/link_out.py": "../outside/v_out.py",
+            "pipealias": "pipe"}
+# sibling pipeline files for directory specs (both sort after the document under test: priority 99)
+SIBLINGS = {"pipe/a_sibling.yml": {"name": "sib", "priority": 99},
+            "pipe/sub/z_sibling.yml": {"priority": 99, "transformations": [{"type": "set_state", "key": "k", "val": "v"}]}}
 # value files for the file source
 SRC_FILES = {"src/values_a.txt": "EXTVAL_fa\n", "src/values_b.txt": "EXTVAL_fb1\nEXTVAL_fb2\n",
              "src/values.csv": "col,other\nEXTVAL_fc,x\n"}
@@ -27,7 +33,7 @@ def root():
     global _ROOT
     if _ROOT is None:
         r = os.path.realpath(tempfile.mkdtemp(prefix="verif_c16_"))
-        for d in ("allowed/sub", "allowed_evil", "outside", "pipe", "src"):
+        for d in ("allowed/sub", "allowed_evil", "outside", "pipe/sub/deep/below", "src"):
             os.makedirs(os.path.join(r, d))
         for rel, vid in VARS_FILES.items():
             with open(os.path.join(r, rel), "w") as f:
@@ -61,7 +67,7 @@ def _hook(event, args):
             if isinstance(p, bytes):
                 p = p.decode("utf-8", "replace")
             if isinstance(p, str) and (p.startswith(r + "/") or p.startswith("/nonexistent_verif")):
-                if "/pipe/pipeline.yml" in p:
+                if p.endswith(".yml"):       # the pipeline files themselves
                     return
                 _event(("open", p))
         elif event == "subprocess.Popen":
@@ -193,7 +199,11 @@ def run_case(case):
     a = case["args"]
     paths = None if a["paths"] is None else tuple(subst(a["paths"], r))
     entry = case["entry"]
-    src_path = os.path.join(r, "pipe", "pipeline.yml")
+    # where the pipeline file physically lies, and the string by which it is handed to the loader
+    file_rel = "pipe/sub/deep/pipeline.yml" if case.get("loc") == "deep" else "pipe/pipeline.yml"
+    src_path = os.path.join(r, file_rel)
+    src_arg = subst(case.get("src") or "/$ROOT/" + file_rel, r)
+    written = []
     saved = {k: os.environ.get(k) for k in ("PYSIGMA_ALLOW_EXTERNAL_SOURCES", "PYSIGMA_ALLOW_VARS_EXECUTION")}
     for k, v in (("PYSIGMA_ALLOW_EXTERNAL_SOURCES", case["env"]["ext"]), ("PYSIGMA_ALLOW_VARS_EXECUTION", case["env"]["tv"])):
         if v is None:
@@ -204,9 +214,15 @@ def run_case(case):
     _STATE["log"] = log
     res = {}
     try:
-        if entry in ("yaml_src", "resolver"):
+        if entry in ("yaml_src", "resolver", "resolve_file", "resolve_dir"):
             with open(src_path, "w") as f:
                 yaml.safe_dump(doc, f)
+            written.append(src_path)
+            if case.get("siblings"):
+                for rel, content in SIBLINGS.items():
+                    with open(os.path.join(r, rel), "w") as f:
+                        yaml.safe_dump(content, f)
+                    written.append(os.path.join(r, rel))
         _STATE["active"] = True
         pipeline = None
         try:
@@ -218,10 +234,14 @@ def run_case(case):
                                                         vars_allowed_paths=paths, allow_external_sources=a["ext"])
             elif entry == "yaml_src":
                 pipeline = ProcessingPipeline.from_yaml(yaml.safe_dump(doc), allow_template_vars=a["tv"],
-                                                        vars_allowed_paths=paths, source_path=src_path,
+                                                        vars_allowed_paths=paths, source_path=src_arg,
                                                         allow_external_sources=a["ext"])
             elif entry == "resolver":
-                pipeline = ProcessingPipelineResolver().resolve_pipeline(src_path)
+                pipeline = ProcessingPipelineResolver().resolve_pipeline(src_arg)
+            elif entry == "resolve_file":
+                pipeline = ProcessingPipelineResolver().resolve([src_arg])
+            elif entry == "resolve_dir":
+                pipeline = ProcessingPipelineResolver().resolve([subst(case["spec"], r)])
             else:
                 raise RuntimeError("unknown entry " + entry)
             res["load"] = {"ok": True}
@@ -281,7 +301,8 @@ def run_case(case):
                 os.environ.pop(k, None)
             else:
                 os.environ[k] = v
-        try:
-            os.unlink(src_path)
-        except OSError:
-            pass
+        for w in written:
+            try:
+                os.unlink(w)
+            except OSError:
+                pass
